@@ -147,7 +147,7 @@ func (u *Unit) callStatic(st *State, fr *Frame, in *ssa.Call, fn *ssa.Function, 
 	if pp == rtcpPath && fn.Synthetic == "" && u.specMode == 0 {
 		u.inlined[key] = true
 	}
-	outs := u.callFn(st, fn, args, binds, fr.depth+1, site)
+	outs := u.callFn(st, fn, args, binds, fr.depth+1, site, fr)
 	return outs, true
 }
 
